@@ -240,6 +240,17 @@ def model_entry_view(e):
     return (e['tag'], e['size'], tuple(sorted(e['sums'].items())))
 
 
+def only_unauthentic_second_references(sc, v):
+    """Every broken link matches the entry of one accepted parent Manifest, and the entries it fails are held by
+    Manifests at or below the level from which the attacker recomputes (or the top itself was rewritten)."""
+    rewritten = [m_['p'] for m_ in sc.get('muts', []) if m_.get('m') == 'manifest']
+    depth = lambda p_: len([c_ for c_ in os.path.dirname(p_).split('/') if c_])
+    k_level = min([depth(p_) for p_ in rewritten] or [99])
+    return bool(v.chain) and all(c in v.partial for c in v.chain) and (
+        sc.get('top', 'Manifest') in rewritten or
+        all(depth(h) >= k_level for c in v.chain for h in v.chain_holders.get(c, [])))
+
+
 def execute(sc):
     violations = []
     zones = {}
@@ -278,6 +289,15 @@ def execute(sc):
                     v = model.verdict(op.get('sub', ''))
                     r = call(lambda: fresh_loader().assert_directory_verifies(op.get('sub', '')))
                     results.append(r)
+                    if v.kind == 'CHAIN' and only_unauthentic_second_references(sc, v) and (
+                            r[0] != 'ok' or all(not psw(c, op.get('sub', '')) for c in v.chain)):
+                        # see the single-path case below; a failure of any class is fine, success only if the
+                        # contradicted MANIFEST entry lies outside the verified directory
+                        zn = 'sub-manifest-matches-one-parent-entry-not-another'
+                        zones[zn] = zones.get(zn, 0) + 1
+                        broken_any += 1
+                        outcome.append(['dir', op.get('sub', ''), v.kind, r[0], r[1] if r[0] != 'ok' else repr(r[1])])
+                        continue
                     vs, zone = check_strict_verify(v, r, 'assert_directory_verifies(%r)' % op.get('sub', ''))
                     violations += vs
                     if zone:
@@ -327,9 +347,11 @@ def execute(sc):
                     continue
                 if 'manifest-beneath-file' in v.zones and r[0] == 'OS':
                     continue
-                if all(c in v.partial for c in v.chain):
-                    # matched the entry of one accepted parent Manifest, which is all the statement asks for; whether
-                    # the other parent's entry is compared too depends on the loader's earlier calls
+                if only_unauthentic_second_references(sc, v):
+                    # matched the entry of one accepted parent Manifest, and the entry it fails is held by a Manifest at or
+                    # below the level from which the attacker recomputes (a consistent attacker would have rewritten that
+                    # one too - outside the quantifier), or the top itself was rewritten: nothing authentic is contradicted.
+                    # Whether gemato compares such a second entry depends on the loader's earlier calls (pass alignment)
                     zones['sub-manifest-matches-one-parent-entry-not-another'] = zones.get('sub-manifest-matches-one-parent-entry-not-another', 0) + 1
                     continue
                 violations.append(viol('chain.not-detected',
